@@ -149,6 +149,18 @@ package storage
 //@   requires PoolReady(m) && lockset(m.mu, W)
 //@   ensures[C06,C07] PoolReady(m) && err == nil
 
+// FlushMemTables is entered without locks (client call, or the flush goroutine); the list of tables to flush is
+// taken out of the shared field under m.mu, and the tables are flushed holding flushMu only.
+//@ func (*Manager).FlushMemTables
+//@   requires lockset()
+//@   requires[INV] SeqInv(m)
+//@   ensures[C06,C07] true
+//@ loop (*Manager).FlushMemTables#1
+//@   invariant[C06,C07] lockset(m.flushMu, W)
+//@ func (*Manager).requeueUnflushed
+//@   requires lockset(m.flushMu, W)
+//@   ensures[C06,C07] lockset(m.flushMu, W)
+
 //@ func (*Manager).RotateWAL
 //@   requires SeqInv(m) && lockset()
 //@   ensures[C06,C07,C08] SeqInv(m)
